@@ -241,3 +241,71 @@ def diff(a, b, path="", out=None, limit=6):
     elif a != b:
         out.append(f"{path}: {str(a)[:70]} != {str(b)[:70]}")
     return out[:limit]
+
+
+# --------------------------------------------------------------------------- nested components (effective coverage)
+_COMPONENT_TOKENS = [
+    ("get_interior_ring", "interior_ring"), ("get_bounds", "bounds"), ("get_count", "count"), ("get_index", "index"),
+    ("get_list", "list"), ("get_tie_point_indices", "tie_point_indices"),
+    ("get_interpolation_parameters", "interpolation_parameters"), ("get_dependent_tie_points", "dependent_tie_points"),
+    ("get_node_count", "node_count"), ("get_part_node_count", "part_node_count"), ("constructs", "constructs"),
+    ("get_datum", "datum"), ("get_coordinate_conversion", "coordinate_conversion"),
+]
+_DATA_KEYS = ("array", "shape", "dtype", "compressed_array", "get_data", "source")
+
+
+def _label(path):
+    """component label of a fingerprint path: the nested components it passes through, then data/own"""
+    toks = [t for t in path.split("/") if t]
+    out = []
+    for t in toks:
+        base = t.split("[")[0]
+        for tok, lab in _COMPONENT_TOKENS:
+            if base == tok and (not out or out[-1] != lab):
+                out.append(lab)
+    leaf_data = any(t.split("[")[0] in _DATA_KEYS for t in toks)
+    out.append("data" if leaf_data else "own")
+    return ">".join(out)
+
+
+def components_present(f):
+    """labels of the nested components (and of their data) that the fingerprint f has values for"""
+    acc = set()
+    _walk_present(f, "", acc)
+    return acc
+
+
+def _walk_present(a, path, acc):
+    if isinstance(a, dict):
+        for k, v in a.items():
+            if v is None or v == ["ok", None] or v == ["ok", ["dict", []]]:
+                continue
+            _walk_present(v, f"{path}/{k}", acc)
+    elif isinstance(a, list):
+        for i, v in enumerate(a):
+            _walk_present(v, f"{path}[{i}]", acc)
+    elif a is not None:
+        acc.add(_label(path))
+
+
+def components_changed(f0, f1):
+    """labels of the nested components at which two fingerprints of the same object differ"""
+    acc = set()
+    _walk_changed(f0, f1, "", acc)
+    return acc
+
+
+def _walk_changed(a, b, path, acc):
+    if a == b:
+        return
+    if isinstance(a, dict) and isinstance(b, dict):
+        for k in set(a) | set(b):
+            if k not in a or k not in b:
+                acc.add(_label(f"{path}/{k}"))
+            else:
+                _walk_changed(a[k], b[k], f"{path}/{k}", acc)
+    elif isinstance(a, list) and isinstance(b, list) and len(a) == len(b):
+        for i, (p, q) in enumerate(zip(a, b)):
+            _walk_changed(p, q, f"{path}[{i}]", acc)
+    else:
+        acc.add(_label(path))
